@@ -17,6 +17,8 @@ def run_deductive(rep):
         items += C12_more.items(rep)
     except ImportError:
         pass
+    from ..contracts.metricframe import ProcessFeaturesDict
+    items.append((ProcessFeaturesDict(), [("dict_entries_taken_in_sorted_order", verify.replace_expr("features.items()", "sorted(features.items())"))]))
     verify.verify_many(rep, items)
     try:
         from . import C12_static
